@@ -9,7 +9,7 @@ import copy
 from .trees import E, T
 
 TYPES = ['text', 'TEXT', 'submit', 'Submit', 'radio', 'checkbox', 'hidden', 'number', 'range', 'date', 'week', 'time',
-         'month', 'datetime-local', 'search', 'tel', 'url', 'email', 'password', 'button', 'reset', 'foo', '']
+         'month', 'datetime-local', 'search', 'tel', 'url', 'email', 'password', 'button', 'reset', 'foo', '', 'wee\u212a']
 BOUNDS = ['1', '5', '3', '-1', '.5', 'x', '', '٣', '５', '२.५', '2019-W53', '2020-W53', '2020-W10', '2020-02-30', '2020-02-29',
           '2019-02-29', '10:00', '23:59', '24:00', '04:30', '2020-01', '2020-13', '2020-01-01T10:00', 'abc', '1e3',
           '0999-W01', '10000-W01', '0001-01-01', '12000-12-31']
